@@ -73,7 +73,7 @@ CHECKS["C16"] = dict(
          "non-object top level, leading garbage, bad escapes, control characters, broken braces (must raise, deliver nothing), or followed "
          "by trailing bytes / preceded by whitespace (must equal the encoding/json reference decode); 5% through a real channel with a "
          "varint frame codec underneath. Non-trivial = nesting >= 2, an integer beyond 2^53, a malformed frame, invalid UTF-8 or > 1024 bytes of text.",
-    required=["mode:text", "mode:json-roundtrip", "mode:json-frame", "mutation:truncate", "mutation:toplevel", "mutation:garbage",
+    required=["json-sequence-held", "carrier:via-lf", "carrier:via-fixed", "mode:text", "mode:json-roundtrip", "mode:json-frame", "mutation:truncate", "mutation:toplevel", "mutation:garbage",
               "mutation:escape", "mutation:trailing", "json-bigint:usenum=true", "json-bigint:usenum=false", "json-nested", "text-invalid-utf8",
               "layer:channel", "carrier:frag", "out:map", "out:raw", "out:struct", "text-sequence"],
     assumptions=["encoding/json is the reference for what a complete valid JSON object is",
@@ -91,7 +91,7 @@ CHECKS["C17"] = dict(
          "equal after every Flush; Write/Writev report the full count and leave the caller's segment contents intact; all reads together "
          "equal the peer's bytes. Non-trivial = a Writev issued while earlier bytes were still buffered, or a payload larger than the "
          "write buffer. Distinct by case hash.",
-    required=["variant:raw", "variant:read", "variant:write", "variant:both", "writev-while-bytes-pending", "payload-larger-than-buffer", "flush", "peer-fragmented"],
+    required=["fault:fired", "fault:flush-succeeded-after-a-failure", "variant:raw", "variant:read", "variant:write", "variant:both", "writev-while-bytes-pending", "payload-larger-than-buffer", "flush", "peer-fragmented"],
     assumptions=["the in-memory net.Conn accepts every write completely, like a healthy connection"],
 )
 
@@ -358,7 +358,7 @@ CHECKS["C15"] = dict(
          "with net/http.ReadResponse into exactly one response per served request with the handler's status, headers and body and nothing "
          "else; the connection stays open iff the request did not ask to close and the response is self-delimiting, and is closed only "
          "after the response bytes; no exception on valid input. Non-trivial = >=2 requests, a body-carrying request, a Flush or a chunked response.",
-    required=["unread-body-then-request", "handler-flush", "resp:chunked", "resp:none", "resp:cl", "http/1.0", "req-chunked", "fragmented",
+    required=["bodiless-response-with-content-length-then-request", "handler-closes-body-then-request", "handler-writes-body-where-none-is-allowed", "connection-carried-more-than-1MiB", "unread-body-then-request", "handler-flush", "resp:chunked", "resp:none", "resp:cl", "http/1.0", "req-chunked", "fragmented",
               "connection-closed", "connection-kept-open", "channel:sync", "channel:queued"],
     assumptions=["net/http's ReadRequest/ReadResponse are the standard parser", "handlers keep the usual contracts: an explicit Content-Length equals the bytes written; bodiless statuses and HEAD write no body; no chunked responses to HTTP/1.0"],
 )
@@ -422,7 +422,7 @@ CHECKS["C20"] = dict(
               "stimulus-near-expiry", "event-handler-panicked", "closed-from-event-handler", "slow-downstream-inactive", "write-after-inactive",
               "v:handlers:read", "v:handlers:write", "v:handlers:both", "v:idle-events-observed", "v:callback-ran-after-later-stimulus",
               "v:inactive-with-callback-in-flight", "v:advanced-to-exact-expiry", "v:stimulus-after-inactive", "v:slow-downstream-inactive",
-              "v:event-handler-panicked", "v:double-fault", "v:closed-from-event-handler", "v:prompt-callbacks", "v:delayed-callbacks"],
+              "v:event-handler-panicked", "v:double-fault", "v:closed-from-event-handler", "v:prompt-callbacks", "v:delayed-callbacks", "v:write-refused-behind-handler", "v:write-slow-behind-handler"],
     assumptions=["real-time stage: a slack of 400 ms between the handler's decision and the harness timestamp (measured lateness in the design probe: <= 2.2 ms for 600 concurrent timelines); a false alarm needs a 400 ms stall of one goroutine twice in a row",
                  "virtual-time stage: the idle handlers read the clock only through time.Now/Since/Until/AfterFunc (a tree that uses time.NewTimer/After/Tick/NewTicker/Sleep for idle timing is only seen by the real-time stage); timelines are executed by one goroutine, so the timer callback and the handler methods never overlap inside one method (the real-time stage and C12 sample that)",
                  "exception handlers do not panic (except where the timeline says so)"],
